@@ -48,8 +48,10 @@ func NewProcessor(queue chan Operator, buffer int, threads int) (p *Processor) {
 
 	for i := 0; i < threads; i++ {
 		p.wg.Add(1)
+		// Take the worker's token before it starts: a worker that exits before a sibling
+		// has started must not find all tokens back and close the result channel.
+		<-p.work
 		go func() {
-			<-p.work
 			defer func() {
 				if err := recover(); err != nil {
 					p.out <- Result{nil, fmt.Errorf("concurrent: processor panic: %v", err)}
